@@ -1,6 +1,7 @@
 /- Helper lemmas for the C06 theorems: expressions under re-indexing, conjunctions, plan invariants (core Lean only). -/
 import AxVerif.Model.Plan
 import AxVerif.Lemmas.Sql
+import AxVerif.Lemmas.Index
 namespace AxVerif.Plan
 open AxVerif.Sql AxVerif.Index
 
@@ -811,5 +812,453 @@ theorem joinCommute_eval (st : Store) (hst : wfStore st = true) (k : JoinKind) (
   apply List.map_congr_left
   intro a _
   simp [Function.comp, rw, Plan.width, ← hlb]
+
+/-! ### JoinAssociativity -/
+
+theorem holdsOpt_conjuncts (tys : List Ty) (on : Option Expr) (r : Row) :
+    holdsOpt tys on r = (optConj conjuncts on).all (holds tys · r) := by
+  cases on with
+  | none => simp [holdsOpt, optConj]
+  | some e => exact holds_conjuncts tys r e
+
+theorem all_filter_split {α} (l : List α) (q f : α → Bool) :
+    l.all f = ((l.filter q).all f && (l.filter (fun x => !q x)).all f) := by
+  induction l with
+  | nil => rfl
+  | cons x xs ih =>
+    cases hq : q x
+    · simp only [List.all_cons, List.filter_cons, ih, hq, Bool.not_false, if_true, Bool.false_eq_true, if_false]
+      generalize f x = u
+      generalize (xs.filter q).all f = v
+      generalize (xs.filter fun x => !q x).all f = w
+      cases u <;> cases v <;> cases w <;> rfl
+    · simp only [List.all_cons, List.filter_cons, ih, hq, Bool.not_true, if_true, Bool.false_eq_true, if_false]
+      generalize f x = u
+      generalize (xs.filter q).all f = v
+      generalize (xs.filter fun x => !q x).all f = w
+      cases u <;> cases v <;> cases w <;> rfl
+
+theorem filter_flatMap_if {α β} (l : List α) (p : α → Bool) (h : α → List β) :
+    (l.filter p).flatMap h = l.flatMap (fun x => if p x then h x else []) := by
+  induction l with
+  | nil => rfl
+  | cons x xs ih =>
+    simp only [List.filter_cons, List.flatMap_cons]
+    cases p x <;> simp [ih]
+
+theorem allColsGe_not_below (k : Nat) (e : Expr) : allColsGe {} k e = !anyColBelow {} k e := by
+  show ((cols e).all fun i => decide (k ≤ i)) = !((cols e).any fun i => decide (i < k))
+  induction cols e with
+  | nil => rfl
+  | cons i is ih =>
+    have hd : decide (k ≤ i) = !decide (i < k) := by
+      by_cases h : k ≤ i
+      · simp [h, Nat.not_lt.mpr h]
+      · simp [h, Nat.lt_of_not_le h]
+    simp only [List.all_cons, List.any_cons, ih, Bool.not_or, hd]
+
+theorem conjuncts_cols : ∀ (e0 e : Expr), e ∈ conjuncts e0 → ∀ i ∈ cols e, i ∈ cols e0
+  | .and p q, e, he, i, hi => by
+    simp only [conjuncts, List.mem_append] at he
+    simp only [cols, List.mem_append]
+    rcases he with he | he
+    · exact Or.inl (conjuncts_cols p e he i hi)
+    · exact Or.inr (conjuncts_cols q e he i hi)
+  | .lit _, e, he, i, hi | .col _, e, he, i, hi | .not _, e, he, i, hi | .neg _, e, he, i, hi | .pos _, e, he, i, hi
+  | .or _ _, e, he, i, hi | .cmp _ _ _, e, he, i, hi | .arith _ _ _, e, he, i, hi | .like _ _ _, e, he, i, hi
+  | .isNull _ _, e, he, i, hi | .between _ _ _ _, e, he, i, hi | .inList _ _ _, e, he, i, hi => by
+    simp only [conjuncts, List.mem_singleton] at he
+    subst he
+    exact hi
+
+/-- both shapes of a three-way inner join enumerate the triples in the same order -/
+theorem assoc_shape (A B C : List Row) (mi : Row → Row → Bool) (mo : Row → Row → Bool) (mbc mac : Row → Row → Bool)
+    (h : ∀ a ∈ A, ∀ b ∈ B, ∀ c ∈ C, (mi a b && mo (a ++ b) c) = (mbc b c && mac a (b ++ c))) :
+    (A.flatMap (fun a => (B.filter (mi a)).map (a ++ ·))).flatMap (fun ab => (C.filter (mo ab)).map (ab ++ ·))
+      = A.flatMap (fun a => ((B.flatMap (fun b => (C.filter (mbc b)).map (b ++ ·))).filter (mac a)).map (a ++ ·)) := by
+  rw [List.flatMap_assoc]
+  apply flatMap_congr_mem
+  intro a ha
+  rw [List.flatMap_map, filter_flatMap_if, List.filter_flatMap, List.map_flatMap]
+  apply flatMap_congr_mem
+  intro b hb
+  rw [List.filter_map, List.map_map, List.filter_filter]
+  have : (if mi a b then (C.filter (mo (a ++ b))).map (a ++ b ++ ·) else [])
+      = (C.filter (fun c => mi a b && mo (a ++ b) c)).map (a ++ b ++ ·) := by
+    cases mi a b <;> simp
+  rw [this]
+  have hf : C.filter (fun c => mi a b && mo (a ++ b) c)
+      = C.filter (fun c => (mac a ∘ fun x => b ++ x) c && mbc b c) := by
+    apply List.filter_congr
+    intro c hc
+    rw [h a ha b hb c hc, Bool.and_comm]
+    rfl
+  rw [hf]
+  apply List.map_congr_left
+  intro c _
+  simp [Function.comp, List.append_assoc]
+
+theorem joinAssoc_eval (st : Store) (hst : wfStore st = true) (outer inner : Option Expr) (a b c : Plan)
+    (hscope : ∀ e, inner = some e → ∀ i ∈ cols e, i < a.width st + b.width st) :
+    let aw := a.width st
+    evalPlan st (.join .inner
+        (combine (optConj (collectInvolving {} aw) inner ++ optConj (collectInvolving {} aw) outer)) a
+        (.join .inner (combine (optConj (collectForRange {} aw) outer ++ optConj (collectForRange {} aw) inner)) b c))
+      = evalPlan st (.join .inner outer (.join .inner inner a b) c) := by
+  intro aw
+  have hA := evalPlan_length st hst a
+  have hB := evalPlan_length st hst b
+  simp only [evalPlan, Plan.tys, joinPure_inner]
+  symm
+  apply assoc_shape
+  intro x hx y hy z hz
+  have hxl := hA x hx
+  have hyl := hB y hy
+  -- everything is read on the triple `x ++ y ++ z` with the schema of the three inputs
+  have hin : holdsOpt (a.tys st ++ b.tys st) inner (x ++ y)
+      = (optConj conjuncts inner).all (holds (a.tys st ++ (b.tys st ++ c.tys st)) · (x ++ (y ++ z))) := by
+    rw [holdsOpt_conjuncts]
+    apply all_congr_mem
+    intro e he
+    rw [← List.append_assoc, ← List.append_assoc]
+    symm
+    apply holds_left _ _ _ _ _ (by simp [hxl, hyl])
+    intro i hi
+    cases inner with
+    | none => simp [optConj] at he
+    | some e0 =>
+      simp only [optConj] at he
+      have := hscope e0 rfl i (conjuncts_cols e0 e he i hi)
+      simpa [Plan.width] using this
+  have hout : holdsOpt (a.tys st ++ b.tys st ++ c.tys st) outer (x ++ y ++ z)
+      = (optConj conjuncts outer).all (holds (a.tys st ++ (b.tys st ++ c.tys st)) · (x ++ (y ++ z))) := by
+    rw [holdsOpt_conjuncts, List.append_assoc, List.append_assoc]
+  -- the two new conditions
+  have hge : ∀ (on : Option Expr),
+      (optConj (collectForRange {} aw) on).all (holds (b.tys st ++ c.tys st) · (y ++ z))
+        = ((optConj conjuncts on).filter (allColsGe {} aw)).all (holds (a.tys st ++ (b.tys st ++ c.tys st)) · (x ++ (y ++ z))) := by
+    intro on
+    cases on with
+    | none => simp [optConj]
+    | some e0 =>
+      simp only [optConj, collectForRange, List.all_map]
+      apply all_congr_mem
+      intro e he
+      simp only [List.mem_filter] at he
+      have h2 : ∀ i ∈ cols e, aw ≤ i := by
+        have := he.2
+        simpa [allColsGe] using this
+      simp only [Function.comp, shiftDown]
+      exact holds_right _ _ _ _ _ hxl (fun i hi => by simpa [aw, Plan.width] using h2 i hi)
+  have hlt : ∀ (on : Option Expr),
+      (optConj (collectInvolving {} aw) on).all (holds (a.tys st ++ (b.tys st ++ c.tys st)) · (x ++ (y ++ z)))
+        = ((optConj conjuncts on).filter (fun e => !allColsGe {} aw e)).all
+            (holds (a.tys st ++ (b.tys st ++ c.tys st)) · (x ++ (y ++ z))) := by
+    intro on
+    cases on with
+    | none => simp [optConj]
+    | some e0 =>
+      simp only [optConj, collectInvolving]
+      congr 1
+      apply List.filter_congr
+      intro e _
+      rw [allColsGe_not_below]; simp
+  rw [hin, hout, holdsOpt_combine, holdsOpt_combine, List.all_append, List.all_append, hge, hge, hlt, hlt]
+  rw [all_filter_split (optConj conjuncts inner) (allColsGe {} aw), all_filter_split (optConj conjuncts outer) (allColsGe {} aw)]
+  generalize ((optConj conjuncts inner).filter (allColsGe {} aw)).all _ = i1
+  generalize ((optConj conjuncts inner).filter (fun e => !allColsGe {} aw e)).all _ = i2
+  generalize ((optConj conjuncts outer).filter (allColsGe {} aw)).all _ = o1
+  generalize ((optConj conjuncts outer).filter (fun e => !allColsGe {} aw e)).all _ = o2
+  cases i1 <;> cases i2 <;> cases o1 <;> cases o2 <;> rfl
+
+/-! ### range bounds -/
+
+theorem keyPos_spec : ∀ (ixcols : List Nat) (c pos : Nat), keyPos ixcols c = some pos → ixcols[pos]? = some c
+  | [], _, _, h => by simp [keyPos] at h
+  | x :: xs, c, pos, h => by
+    simp only [keyPos] at h
+    split at h
+    · rename_i hx
+      simp only [Option.some.injEq] at h
+      subst h; simp [hx]
+    · simp only [Option.map_eq_some_iff] at h
+      obtain ⟨q, hq, rfl⟩ := h
+      simpa using keyPos_spec xs c q hq
+
+theorem keyOf_at (ixcols : List Nat) (r : Row) (pos c : Nat) (h : ixcols[pos]? = some c) :
+    (keyOf ixcols r)[pos]? = some (r.getD c .null) := by
+  simp [keyOf, List.getElem?_map, h]
+
+theorem cmp3_null_right' (op : CmpOp) (a : Value) : cmp3 op a .null = none := by
+  cases a <;> rfl
+
+theorem holds_swap_lt (o : Ordering) : CmpOp.holds .gt o.swap = CmpOp.holds .lt o := by cases o <;> rfl
+theorem holds_swap_le (o : Ordering) : CmpOp.holds .ge o.swap = CmpOp.holds .le o := by cases o <;> rfl
+theorem holds_swap_eq (o : Ordering) : CmpOp.holds .eq o.swap = CmpOp.holds .eq o := by cases o <;> rfl
+
+theorem cmp3_of_nonnull (op : CmpOp) (a b : Value) (ha : a ≠ .null) (hb : b ≠ .null) :
+    cmp3 op a b = some (op.holds (a.cmp b)) := by
+  cases a <;> cases b <;> simp_all [cmp3]
+
+/-- `a > b` is `b < a`, `a ≥ b` is `b ≤ a`, equality is symmetric -/
+theorem cmp3_flip (a b : Value) :
+    cmp3 .gt a b = cmp3 .lt b a ∧ cmp3 .ge a b = cmp3 .le b a ∧ cmp3 .eq a b = cmp3 .eq b a := by
+  by_cases ha : a = .null
+  · subst ha; simp [cmp3_null_left, cmp3_null_right']
+  by_cases hb : b = .null
+  · subst hb; simp [cmp3_null_left, cmp3_null_right']
+  rw [cmp3_of_nonnull _ a b ha hb, cmp3_of_nonnull _ a b ha hb, cmp3_of_nonnull _ a b ha hb,
+    cmp3_of_nonnull _ b a hb ha, cmp3_of_nonnull _ b a hb ha, cmp3_of_nonnull _ b a hb ha]
+  rw [Value.cmp_swap b a]
+  generalize b.cmp a = o
+  cases o <;> simp [CmpOp.holds, Ordering.swap] <;> decide
+
+theorem cmp3_le_split (a b : Value) :
+    (cmp3 .le a b == some true) = (cmp3 .lt a b == some true || cmp3 .eq a b == some true) := by
+  by_cases ha : a = .null
+  · subst ha; simp [cmp3_null_left]
+  by_cases hb : b = .null
+  · subst hb; simp [cmp3_null_right']
+  simp only [cmp3_of_nonnull _ a b ha hb]
+  generalize a.cmp b = o
+  cases o <;> rfl
+
+theorem cmp3_ge_split (a b : Value) :
+    (cmp3 .ge a b == some true) = (cmp3 .gt a b == some true || cmp3 .eq a b == some true) := by
+  by_cases ha : a = .null
+  · subst ha; simp [cmp3_null_left]
+  by_cases hb : b = .null
+  · subst hb; simp [cmp3_null_right']
+  simp only [cmp3_of_nonnull _ a b ha hb]
+  generalize a.cmp b = o
+  cases o <;> rfl
+
+theorem cmp3_eq_split (a b : Value) :
+    (cmp3 .eq a b == some true)
+      = ((cmp3 .lt a b == some true || cmp3 .eq a b == some true) && (cmp3 .gt a b == some true || cmp3 .eq a b == some true)) := by
+  by_cases ha : a = .null
+  · subst ha; simp [cmp3_null_left]
+  by_cases hb : b = .null
+  · subst hb; simp [cmp3_null_right']
+  simp only [cmp3_of_nonnull _ a b ha hb]
+  generalize a.cmp b = o
+  cases o <;> rfl
+
+/-- the truth of `column op literal` read off the row -/
+theorem holds_cmp_col_lit (tys : List Ty) (op : CmpOp) (c : Nat) (v : Value) (r : Row) :
+    holds tys (.cmp op (.col c) (.lit v)) r = (cmp3 op (r.getD c .null) v == some true) := by
+  simp only [holds, evalPred, eval, List.getD_eq_getElem?_getD]
+  cases hc : r[c]? with
+  | none => simp [cmp3_null_left]
+  | some kv =>
+    simp only [Option.getD_some]
+    cases h : cmp3 op kv v with
+    | none => simp [TV.toValue]
+    | some b => cases b <;> simp [TV.toValue]
+
+theorem holds_cmp_lit_col (tys : List Ty) (op : CmpOp) (c : Nat) (v : Value) (r : Row) :
+    holds tys (.cmp op (.lit v) (.col c)) r = (cmp3 op v (r.getD c .null) == some true) := by
+  simp only [holds, evalPred, eval, List.getD_eq_getElem?_getD]
+  cases hc : r[c]? with
+  | none => simp [cmp3_null_right']
+  | some kv =>
+    simp only [Option.getD_some]
+    cases h : cmp3 op v kv with
+    | none => simp [TV.toValue]
+    | some b => cases b <;> simp [TV.toValue]
+
+theorem boundOk_start (key : List Value) (pos : Nat) (v kv : Value) (incl : Bool) (hk : key[pos]? = some kv) :
+    boundOk true key ⟨pos, v, incl⟩ = (cmp3 .lt v kv == some true || (incl && cmp3 .eq v kv == some true)) := by
+  simp [boundOk, hk]
+
+theorem boundOk_end (key : List Value) (pos : Nat) (v kv : Value) (incl : Bool) (hk : key[pos]? = some kv) :
+    boundOk false key ⟨pos, v, incl⟩ = (cmp3 .gt v kv == some true || (incl && cmp3 .eq v kv == some true)) := by
+  simp [boundOk, hk]
+
+theorem boundsColLit_spec (pos : Nat) (v kv : Value) (op : CmpOp) (lo hi : List Bound) (key : List Value)
+    (hk : key[pos]? = some kv) (h : boundsColLit pos v op = some (lo, hi)) :
+    (cmp3 op kv v == some true) = (lo.all (boundOk true key) && hi.all (boundOk false key)) := by
+  obtain ⟨f1, f2, f3⟩ := cmp3_flip kv v
+  obtain ⟨g1, g2, _⟩ := cmp3_flip v kv
+  cases op <;> simp only [boundsColLit, Option.some.injEq, Prod.mk.injEq, reduceCtorEq] at h
+  · obtain ⟨rfl, rfl⟩ := h
+    simp only [List.all_cons, List.all_nil, Bool.and_true, boundOk_start key pos v kv _ hk, boundOk_end key pos v kv _ hk,
+      Bool.true_and]
+    rw [f3]; exact cmp3_eq_split v kv
+  · obtain ⟨rfl, rfl⟩ := h
+    simp only [List.all_cons, List.all_nil, Bool.and_true, boundOk_end key pos v kv _ hk, Bool.false_and, Bool.or_false,
+      Bool.true_and]
+    rw [g1]
+  · obtain ⟨rfl, rfl⟩ := h
+    simp only [List.all_cons, List.all_nil, Bool.and_true, boundOk_end key pos v kv _ hk, Bool.true_and]
+    rw [← g2]; exact cmp3_ge_split v kv
+  · obtain ⟨rfl, rfl⟩ := h
+    simp only [List.all_cons, List.all_nil, Bool.and_true, boundOk_start key pos v kv _ hk, Bool.false_and, Bool.or_false]
+    rw [f1]
+  · obtain ⟨rfl, rfl⟩ := h
+    simp only [List.all_cons, List.all_nil, Bool.and_true, boundOk_start key pos v kv _ hk, Bool.true_and]
+    rw [f2]; exact cmp3_le_split v kv
+
+theorem boundsLitCol_spec (pos : Nat) (v kv : Value) (op : CmpOp) (lo hi : List Bound) (key : List Value)
+    (hk : key[pos]? = some kv) (h : boundsLitCol pos v op = some (lo, hi)) :
+    (cmp3 op v kv == some true) = (lo.all (boundOk true key) && hi.all (boundOk false key)) := by
+  cases op <;> simp only [boundsLitCol, Option.some.injEq, Prod.mk.injEq, reduceCtorEq] at h
+  · obtain ⟨rfl, rfl⟩ := h
+    simp only [List.all_cons, List.all_nil, Bool.and_true, boundOk_start key pos v kv _ hk, boundOk_end key pos v kv _ hk,
+      Bool.true_and]
+    exact cmp3_eq_split v kv
+  · obtain ⟨rfl, rfl⟩ := h
+    simp only [List.all_cons, List.all_nil, Bool.and_true, boundOk_start key pos v kv _ hk, Bool.false_and, Bool.or_false]
+  · obtain ⟨rfl, rfl⟩ := h
+    simp only [List.all_cons, List.all_nil, Bool.and_true, boundOk_start key pos v kv _ hk, Bool.true_and]
+    exact cmp3_le_split v kv
+  · obtain ⟨rfl, rfl⟩ := h
+    simp only [List.all_cons, List.all_nil, Bool.and_true, boundOk_end key pos v kv _ hk, Bool.false_and, Bool.or_false,
+      Bool.true_and]
+  · obtain ⟨rfl, rfl⟩ := h
+    simp only [List.all_cons, List.all_nil, Bool.and_true, boundOk_end key pos v kv _ hk, Bool.true_and]
+    exact cmp3_ge_split v kv
+
+/-- A conjunct is TRUE on a row exactly if the row's key satisfies the bounds taken from it and its residual part holds:
+    bounds lose nothing and admit nothing. -/
+theorem boundOfConjunct_spec (ixcols : List Nat) (tys : List Ty) (r : Row) (e : Expr) :
+    holds tys e r = ((boundOfConjunct ixcols e).1.all (boundOk true (keyOf ixcols r))
+      && ((boundOfConjunct ixcols e).2.1.all (boundOk false (keyOf ixcols r))
+      && (boundOfConjunct ixcols e).2.2.all (holds tys · r))) := by
+  fun_cases boundOfConjunct ixcols e
+  · -- column op literal, usable
+    rename_i op c v lo hi hb
+    simp only [hb, List.all_nil, Bool.and_true]
+    simp only [Option.bind_eq_some_iff] at hb
+    obtain ⟨pos, hpos, hb⟩ := hb
+    rw [holds_cmp_col_lit]
+    exact boundsColLit_spec pos v _ op lo hi _ (keyOf_at ixcols r pos c (keyPos_spec _ _ _ hpos)) hb
+  · rename_i op c v hb
+    simp [hb]
+  · rename_i op v c lo hi hb
+    simp only [hb, List.all_nil, Bool.and_true]
+    simp only [Option.bind_eq_some_iff] at hb
+    obtain ⟨pos, hpos, hb⟩ := hb
+    rw [holds_cmp_lit_col]
+    exact boundsLitCol_spec pos v _ op lo hi _ (keyOf_at ixcols r pos c (keyPos_spec _ _ _ hpos)) hb
+  · rename_i op v c hb
+    simp [hb]
+  · simp
+
+theorem all_and3 {α} (l : List α) (f g h : α → Bool) :
+    l.all (fun x => f x && (g x && h x)) = (l.all f && (l.all g && l.all h)) := by
+  induction l with
+  | nil => rfl
+  | cons x xs ih =>
+    simp only [List.all_cons, ih]
+    generalize f x = a; generalize g x = b; generalize h x = c
+    generalize xs.all f = a'; generalize xs.all g = b'; generalize xs.all h = c'
+    cases a <;> cases b <;> cases c <;> cases a' <;> cases b' <;> cases c' <;> rfl
+
+/-- `range_bounds_sound`, exact form: the predicate is TRUE on a row iff the key of the row lies inside the extracted
+    bounds and the residual predicate is TRUE. -/
+theorem extractBounds_spec (ixcols : List Nat) (tys : List Ty) (p : Expr) (r : Row) :
+    holds tys p r = (boundsOk (extractBounds ixcols p).1 (extractBounds ixcols p).2.1 (keyOf ixcols r)
+      && holdsOpt tys (extractBounds ixcols p).2.2 r) := by
+  rw [holds_conjuncts]
+  simp only [extractBounds, boundsOk, holdsOpt_combine, List.all_flatMap, List.all_map]
+  rw [Bool.and_assoc, ← all_and3]
+  apply all_congr_mem
+  intro e _
+  simp only [Function.comp]
+  rw [boundOfConjunct_spec ixcols tys r e]
+
+/-! ### index scan = filter over the table scan -/
+
+theorem boundOk_null (start : Bool) (key : List Value) (b : Bound) (h : key[b.pos]? = some .null) :
+    boundOk start key b = false := by
+  simp only [boundOk, h]
+  cases start <;> simp [cmp3_null_right']
+
+theorem boundsOk_false_of_null (lo hi : List Bound) (key : List Value) (j : Nat) (hj : key[j]? = some .null)
+    (hb : (lo ++ hi).any (fun b => b.pos == j) = true) : boundsOk lo hi key = false := by
+  simp only [List.any_append, Bool.or_eq_true, List.any_eq_true, beq_iff_eq] at hb
+  simp only [boundsOk]
+  rcases hb with ⟨b, hb, rfl⟩ | ⟨b, hb, rfl⟩
+  · have : lo.all (boundOk true key) = false := by
+      apply List.all_eq_false.mpr
+      exact ⟨b, hb, by simp [boundOk_null true key b hj]⟩
+    simp [this]
+  · have : hi.all (boundOk false key) = false := by
+      apply List.all_eq_false.mpr
+      exact ⟨b, hb, by simp [boundOk_null false key b hj]⟩
+    simp [this]
+
+theorem wfTable_notNull {tb : STable} (h : wfTable tb = true) {x : Nat × Row} (hx : x ∈ tb.rows) (c : Nat)
+    (hn : x.2.getD c .null = .null) : tb.notNull.getD c false = false := by
+  simp only [wfTable, List.all_eq_true, Bool.and_eq_true] at h
+  have := (h x hx).2
+  simp only [respectsNotNull, List.all_eq_true, List.mem_range] at this
+  by_cases hc : c < tb.notNull.length
+  · have := this c hc
+    simp only [hn, bne_self_eq_false, Bool.or_false, Bool.not_eq_eq_eq_not, Bool.not_true] at this
+    exact this
+  · simp [List.getD_eq_getElem?_getD, List.getElem?_eq_none (Nat.le_of_not_lt hc)]
+
+theorem hasNull_witness (k : List Value) (h : hasNull k = true) : ∃ j : Nat, k[j]? = some Value.null := by
+  simp only [hasNull, List.any_eq_true, beq_iff_eq] at h
+  obtain ⟨v, hv, rfl⟩ := h
+  obtain ⟨j, hj, hjv⟩ := List.getElem_of_mem hv
+  exact ⟨j, by simp [hj, hjv]⟩
+
+/-- a row with NULL in the key is rejected by the bounds, provided every nullable key position carries a bound -/
+theorem boundsOk_false_of_hasNull (tb : STable) (hwf : wfTable tb = true) (ixcols : List Nat) (lo hi : List Bound)
+    (hnb : nullableBounded tb ixcols lo hi = true) (x : Nat × Row) (hx : x ∈ tb.rows)
+    (hn : hasNull (keyOf ixcols x.2) = true) : boundsOk lo hi (keyOf ixcols x.2) = false := by
+  obtain ⟨j, hj⟩ := hasNull_witness _ hn
+  have hjl : j < ixcols.length := by
+    rcases Nat.lt_or_ge j ixcols.length with h | h
+    · exact h
+    · simp [keyOf, List.getElem?_map, List.getElem?_eq_none h] at hj
+  have hcol : x.2.getD (ixcols.getD j 0) .null = .null := by
+    simp only [keyOf, List.getElem?_map, List.getElem?_eq_getElem hjl, Option.map_some, Option.some.injEq] at hj
+    simpa [List.getD_eq_getElem?_getD, hjl] using hj
+  have hnn := wfTable_notNull hwf hx _ hcol
+  simp only [nullableBounded, List.all_eq_true, List.mem_range] at hnb
+  have := hnb j hjl
+  simp only [hnn, Bool.false_or] at this
+  exact boundsOk_false_of_null lo hi _ j hj this
+
+theorem getD_mem_of_index {st : Store} {t k : Nat} {ix : Index} (h : (st.getD t default).indexes[k]? = some ix) :
+    st.getD t default ∈ st := by
+  by_cases ht : t < st.length
+  · have : st.getD t default = st[t] := by simp [List.getD_eq_getElem?_getD, ht]
+    rw [this]; exact List.getElem_mem ht
+  · have : st.getD t default = default := by
+      simp [List.getD_eq_getElem?_getD, List.getElem?_eq_none (Nat.le_of_not_lt ht)]
+    rw [this] at h
+    have hd : (default : STable).indexes = [] := rfl
+    rw [hd] at h
+    simp at h
+
+/-- `index_scan_eq_filter`: over a consistent index, the index scan with the bounds extracted from a predicate and the
+    residual re-checked returns the rows the filter over the table scan returns. -/
+theorem indexScan_eval (st : Store) (hwf : wfStore st = true) (hc : StoreConsistent st) (t k : Nat) (p : Expr)
+    (ix : Index) (hix : (st.getD t default).indexes[k]? = some ix)
+    (hnb : nullableBounded (st.getD t default) ix.cols (extractBounds ix.cols p).1 (extractBounds ix.cols p).2.1 = true) :
+    (evalPlan st (.indexScan t k (extractBounds ix.cols p).1 (extractBounds ix.cols p).2.1 (extractBounds ix.cols p).2.2)).Perm
+      (evalPlan st (.filter p (.scan t))) := by
+  have hmem := getD_mem_of_index hix
+  obtain ⟨hrids, hcons⟩ := hc _ hmem
+  have hixc := hcons ix (List.mem_of_getElem? hix)
+  have hwft := wfStore_table hwf t
+  simp only [evalPlan, indexScanRows, hix, Plan.tys]
+  have hs := scan_perm ix (st.getD t default).rows (extractBounds ix.cols p).1 (extractBounds ix.cols p).2.1 hixc hrids
+  refine (hs.filter _).trans (List.Perm.of_eq ?_)
+  rw [List.filter_map, List.filter_map, List.filter_filter]
+  congr 1
+  apply List.filter_congr
+  intro x hx
+  simp only [Function.comp]
+  rw [extractBounds_spec ix.cols (st.getD t default).tys p x.2]
+  cases hn : hasNull (keyOf ix.cols x.2)
+  · simp [Bool.and_comm]
+  · have := boundsOk_false_of_hasNull _ hwft ix.cols _ _ hnb x hx hn
+    simp [this]
 
 end AxVerif.Plan
